@@ -46,7 +46,9 @@ re-trialled in parallel by `tools/regress_all.sh`; its first full run found two
 regressions of the machinery itself (a syntax error introduced into the C04
 sanitizer-search tool by a "comment only" edit, which silently disabled the
 search — now an import at start and a compile step in `setup.sh`; and a C07
-witness that had degraded to a bare broken correspondence), both repaired.
+witness that had degraded to a bare broken correspondence), both repaired; the
+last full run reports {tot} / {tot} seeded changes with a concrete replay and
+{hq + ha} / {hq + ha} harmless rewrites quiet.
 
 | seeded change | round | what it breaks (clause) | what it needs | result of the check |
 |---|---|---|---|---|
